@@ -132,5 +132,13 @@ def fill(claim, na):
         TB + "The loop of _convolve_FX is modelled by hand (tied by correspondence); scipy quadrature and the continuity of the structure functions themselves are observed, not proved. Three defects were repaired (h3 kernel, g1 integrating F2, g1 normalisation 2 xi instead of 2x).",
         "DESIGN.md 6/C10",
     )
-    for p in ["C01", "C04", "C09", "C19"]:
+    claim(
+        "C09",
+        "proof",
+        "translator (syntax tree of the threshold guard, _xi, _eta, labda, convolution point -> Lean KExpr; shape tables for every heavy NC closure, the hadronic decorator, conv.convolution's exits and the mass lookup; regenerated each run) + Lean 4 theorems over the reals and exact rationals + correspondence with the real methods at exact boundary points + real runs on both sides of and exactly on the thresholds",
+        "Proved for all Q2>0, m2>=0, 0<z: the generated guard is Q2(1-z)/z <= 4m2 (boundary included), equivalent to z >= z_max = Q2/(Q2+4m2), monotone in z (hadronic threshold implies the whole partonic range), and the exact complement of the domain eta>0 of the massive coefficient functions; every regular part of all 28 heavy NC (class, order) sites starts with the guard and none has a singular part (kernel-decided on the table read from the syntax tree); the decorator wraps all four orders and empties them, hence every operator entry of the channel is 0 at or below the hadronic threshold, including the local term of the NNLO 'missing' channel; CC: the convolution point is x(1+m2/Q2), inherited by all six classes, used as argument and prefactor, and conv.convolution returns 0 beyond 1-1e-10; the mass looked up is the one of the produced quark. The exact-rational evaluator used by the correspondence is proved sound w.r.t. the real semantics. Real code: guard/eta/labda/point vs model on exactly representable boundary points, one ulp either side, and random points; conv.convolution vs the model on the real eko basis; every regular part exactly 0.0 beyond z_max and LeProHQ never called with eta<=0; operator rows of gluon/lighter quarks exactly zero at and below threshold; NNLO light structure function independent of the heavy mass on threshold; CC LO rows located at chi with the produced quark's mass and zero for chi>=1.",
+        TB + "LeProHQ is external (only its domain is checked). Double rounding within one ulp of a threshold is the code's, not the model's: compared only where double arithmetic is exact. Rows of the produced quark itself (intrinsic channel) are outside the property.",
+        "DESIGN.md 6/C09",
+    )
+    for p in ["C01", "C04", "C19"]:
         na(p, "check not yet built in this round (design in DESIGN.md section 6); will be claimed once its Lean model, theorems and correspondence exist")
